@@ -5,7 +5,7 @@ import ast
 from fractions import Fraction
 
 from ..absint import TOP, Const, FuncRef, Interp, ListOf, Obj, Tup
-from ..domains.affine import A, AffineDomain, BoolC, Mat, Poly, RotSym, Sl, mkA
+from ..domains.affine import A, AffineDomain, BoolC, BoolOr, Mat, Poly, RotSym, Sl, mkA
 from ..domains.frames import AffT, FramesDomain, Rot
 from ..domains.units import PX, UnitsDomain
 from ..match import Matcher
@@ -79,6 +79,13 @@ def slice_pad_clause(model, rep, funcs):
         for nm, v in (("pad_before", p0), ("pad_after", p1), ("slice.start", a)):
             okp = dom.prove_ge(v.poly(), pcs, extra=pre) if v.is_poly() else None
             rep.ob("A", where, f"{nm} >= 0" + tag, True if okp else None, "" if okp else f"cannot prove {v!r} >= 0", node=st, fn=f, clause="1 window")
+        if len(val.items) >= 3:
+            # the flag tells the callers whether the cropped block must be padded: it has to be true exactly when a pad is non-zero
+            need = dom.decide(BoolOr((BoolC(p0, "!="), BoolC(p1, "!="))), pcs, extra=pre)
+            flag = dom.decide(val.items[2], pcs, extra=pre)
+            okf = None if (need is None or flag is None) else (need == flag)
+            rep.ob("A", where, "the out-of-bound flag is true exactly when pad_before or pad_after is non-zero (callers pad only when it is set)" + tag, okf,
+                   f"padding needed: {need}, flag: {flag} ({val.items[2]!r})"[:300], node=st, fn=f, clause="1 window", stmt=norm_src(st) + " flag @ " + pcdesc)
         okb = dom.prove_ge((dom.add(size, dom.neg(b))).poly(), pcs, extra=pre)
         rep.ob("A", where, "slice.stop <= size" + tag, True if okb else None, "" if okb else f"cannot prove {b!r} <= size", node=st, fn=f,
                clause="1 window")
@@ -536,6 +543,9 @@ def check(model, rep, tier):
     diagonal_clause(model, rep, funcs)
     from .C03 import batch_task_order_obligation
     batch_task_order_obligation(model, rep, "i-th subtomogram / i-th molecule")
+    from .common import dask_key_obligations
+    dask_key_obligations(model, rep, "i-th subtomogram / i-th molecule")
+    rep.floor("KEY.site", 8, "(from_array / from_delayed / delayed / map_blocks call sites)")
     from .generic import rebuild_ctor_obligations, functions_in
     rebuild_ctor_obligations(model, rep, functions_in(model, ["acryo/loader/_batch.py", "acryo/loader/_loader.py", "acryo/loader/_base.py", "acryo/loader/_group.py",
                                                               "acryo/loader/_mock.py"]), "4 pairing")
